@@ -186,8 +186,31 @@ def generate(tier, seed, ctx):
             hdr2 = b'\xb5\xee\x9c\x72' + bytes([flags | size, offb]) + b'\xff' * size + (1).to_bytes(size, 'big') + b'\x00' * size + (180).to_bytes(offb, 'big')
             data2 = hdr2 + b'\x00' * size + body
             rec('from_boc_adversarial_cells', 0, 0, len(data2), lambda: Cell.from_boc(data2))
+    # zero-width count/offset fields: the length guards that multiply by a width say nothing, only the count field is left
+    for size in (1, 2, 3, 4, 7):
+        for offb in (0, 1):
+            for flags in (0x80, 0xc0, 0xa0, 0x00):
+                data = b'\xb5\xee\x9c\x72' + bytes([flags | size, offb]) + b'\xff' * size + b'\x00' * size + b'\x00' * size + b'\x00' * offb
+                rec('from_boc_adversarial_zero_width', 0, 0, len(data), lambda: Cell.from_boc(data))
+                data = b'\xb5\xee\x9c\x72' + bytes([flags | size, offb]) + b'\xff' * size + b'\xff' * size + b'\x00' * size + b'\x00' * offb + body[:30]
+                rec('from_boc_adversarial_zero_width', 0, 0, len(data), lambda: Cell.from_boc(data))
+            for magic in (b'\x68\xff\x65\xf3', b'\xac\xc3\xa7\x28'):
+                data = magic + bytes([size, offb]) + b'\xff' * size + (1).to_bytes(size, 'big') + b'\x00' * size + b'\x00' * offb + body[:20]
+                rec('from_boc_adversarial_zero_width', 0, 0, len(data), lambda: Cell.from_boc(data))
     # TL parser
     tl = TlGenerator.with_default_schemas().generate()
+    # a bytes field holding several boxed objects, nested: content_k = query(content_{k-1}) ++ getTime (12 bytes per level)
+    qs, ts = tl.get_by_name('liteServer.query'), tl.get_by_name('liteServer.getTime')
+    if qs is not None and ts is not None:
+        def frame(b):
+            o = (bytes([len(b)]) if len(b) <= 253 else b'\xfe' + len(b).to_bytes(3, 'little')) + b
+            return o + b'\x00' * (-len(o) % 4)
+        for depth in ((4, 10, 16, 24) if q else (4, 8, 12, 16, 20, 24, 32, 48)):
+            content = ts.little_id()
+            for _ in range(depth):
+                content = qs.little_id() + frame(content) + ts.little_id()
+            data = qs.little_id() + frame(content)
+            rec('tl_nested_multi_object_bytes', 0, 0, len(data), lambda: tl.deserialize(data))
     sch = tl.get_by_name('liteServer.accountId') or None
     # one constructor per vector ELEMENT type (base types int / long / int256 / bytes / string first, then object types),
     # with the vector as its first field so that the count field sits right after the constructor id
